@@ -291,3 +291,56 @@ class c_roundtrip_txin:
     def ensures_same(previous_hash, previous_index, script, sequence, result):
         return (result.previous_hash == previous_hash, result.previous_index == previous_index, result.script == script,
                 result.sequence == sequence, len(result.witness) == 0)
+
+
+# ---------------------------------------------------------------- transaction hashes (over Tx.stream's contract)
+from spec.sighash import dsha256
+
+
+def _tx_wf(self):
+    return (0 <= self.version and self.version < 2 ** 32 and 0 <= self.lock_time and self.lock_time < 2 ** 32
+            and all_wf_txin(self.txs_in) and all_wf_txout(self.txs_out))
+
+
+@contract("pycoin.coins.bitcoin.Tx:Tx.hash")
+class tx_hash:
+    """txid: double SHA-256 of the serialisation WITHOUT witness data (followed by the 4-byte hash type when one is given)"""
+    props = ["C07"]
+    sig = dict(self=TX, hash_type=Opt(Int(0, 2 ** 32 - 1)))
+    returns = Bytes()
+
+    def requires(self, hash_type):
+        return _tx_wf(self)
+
+    def ensures_txid(self, hash_type, result):
+        body = ser_tx(self.version, self.txs_in, self.txs_out, self.lock_time, False, False)
+        return result == dsha256(body if hash_type is None else body + le(hash_type, 4))
+
+    canaries = [("self.stream(s, include_witness_data=False)", "self.stream(s, include_witness_data=True)")]
+
+
+@contract("pycoin.coins.bitcoin.Tx:Tx.w_hash")
+class tx_w_hash:
+    """wtxid: double SHA-256 of the full serialisation (BIP144 form exactly when some input has witness data)"""
+    props = ["C07"]
+    sig = dict(self=TX)
+    returns = Bytes()
+
+    def requires(self):
+        return _tx_wf(self)
+
+    def ensures_wtxid(self, result):
+        return result == dsha256(ser_tx(self.version, self.txs_in, self.txs_out, self.lock_time, False, any_witness(self.txs_in)))
+
+
+@contract("pycoin.coins.bitcoin.Tx:Tx.blanked_hash")
+class tx_blanked_hash:
+    props = ["C07"]
+    sig = dict(self=TX)
+    returns = Bytes()
+
+    def requires(self):
+        return _tx_wf(self)
+
+    def ensures_blanked(self, result):
+        return result == dsha256(ser_tx(self.version, self.txs_in, self.txs_out, self.lock_time, True, any_witness(self.txs_in)))
